@@ -74,6 +74,8 @@ var allActions = []action{
 	{"proposal_withdraw", (*Gen).ProposalWithdrawFunds}, {"proposal_finalize", (*Gen).ProposalFinalize}, {"expire_votes", (*Gen).ExpireVotes},
 	{"eth_lock", (*Gen).EthLock}, {"eth_redeem", (*Gen).EthRedeem}, {"erc20_lock", (*Gen).ERC20Lock}, {"erc20_redeem", (*Gen).ERC20Redeem}, {"report_finality", (*Gen).ReportFinality},
 	{"olvm", (*Gen).OLVM},
+	{"bid_create", (*Gen).BidCreate}, {"bid_counter_offer", (*Gen).BidCounterOffer}, {"bid_cancel", (*Gen).BidCancel},
+	{"bid_bidder_decision", (*Gen).BidBidderDecision}, {"bid_owner_decision", (*Gen).BidOwnerDecision}, {"bid_expire", (*Gen).BidExpire},
 }
 
 // Profiles reweight the action families so that deep states are reached in short histories.
@@ -87,9 +89,11 @@ var Profiles = map[string]map[string]int{
 	"eth":        {"send": 1, "eth_lock": 4, "eth_redeem": 3, "erc20_lock": 2, "erc20_redeem": 2, "report_finality": 12},
 	"ons":        {"send": 1, "domain_create": 5, "domain_update": 3, "domain_sale": 4, "domain_purchase": 4, "domain_send": 2, "domain_renew": 3, "domain_delete_sub": 1},
 	"olvm":       {"send": 3, "sendpool": 1, "olvm": 10},
+	"bid": {"send": 1, "domain_create": 4, "domain_update": 1, "domain_sale": 1, "bid_create": 8, "bid_counter_offer": 5, "bid_cancel": 2,
+		"bid_bidder_decision": 4, "bid_owner_decision": 3, "bid_expire": 1},
 }
 
-var ProfileNames = []string{"mixed", "staking", "evidence", "governance", "delegation", "rewards", "eth", "ons", "olvm"}
+var ProfileNames = []string{"mixed", "staking", "evidence", "governance", "delegation", "rewards", "eth", "ons", "olvm", "bid"}
 
 // Draw draws one transaction according to the generator's profile weights.
 func (g *Gen) Draw() txgen.Tx {
